@@ -340,7 +340,7 @@ static int upump_sim_mgr_run(struct upump_mgr *mgr, struct umutex *mutex)
             continue;           /* changed while we yielded */
         if (p->event == UPUMP_TYPE_TIMER) {
             if (p->repeat) {
-                p->deadline += p->repeat;
+                p->deadline = p->repeat > UINT64_MAX - 1 - p->deadline ? UINT64_MAX - 1 : p->deadline + p->repeat;
                 if (p->deadline < sim_now())
                     p->deadline = sim_now();
             } else
